@@ -143,8 +143,10 @@ ApplyEdit(leaf, e) ==
 (***************************************************************************)
 ParamLocs == {"query", "header", "path", "formData"}
 \* parameters declared at PATH level (shared by the operations of the path) instead of the operation
-PathLevelLocs == {"query_pathlevel", "header_pathlevel"}
-PLoc(loc) == IF loc = "query_pathlevel" THEN "query" ELSE IF loc = "header_pathlevel" THEN "header" ELSE loc
+\* *_override: the operation re-declares a parameter that the path item shares (same name and location):
+\* the operation's declaration is the effective one (Swagger 2.0), the edit touches only that one
+PathLevelLocs == {"query_pathlevel", "header_pathlevel", "query_override"}
+PLoc(loc) == IF loc \in {"query_pathlevel", "query_override"} THEN "query" ELSE IF loc = "header_pathlevel" THEN "header" ELSE loc
 BodyLocs  == {"body_prop", "body_ref_prop", "body_ref_ref_prop", "body_ref_items_ref", "body_circular", "body_circular_items", "body_allof_prop", "body_own_allof", "body_own_allofref", "body_items", "body_nested", "body_root"}
 RespLocs  == {"resp_prop"}
 Locs      == ParamLocs \cup PathLevelLocs \cup BodyLocs
@@ -164,7 +166,10 @@ ObjWith(leaf, req) ==
 
 \* Embed(loc, leaf, req, cf): the AOS carrying the leaf at loc; req = the leaf is required there
 Embed(loc, leaf, req, cf) ==
-  CASE loc \in PathLevelLocs ->
+  CASE loc = "query_override" ->
+         Put([BaseAOS EXCEPT !.params = <<ParamOf("query", leaf, req, cf)>>], "pathShadow",
+             <<ParamOf("query", [type |-> "string", maxLength |-> 40], FALSE, "csv")>>)
+    [] loc \in PathLevelLocs ->
          Put([BaseAOS EXCEPT !.params = <<ParamOf(PLoc(loc), leaf, req, cf)>>], "pathLevel", TRUE)
     [] loc \in ParamLocs ->
          IF loc = "formData"
